@@ -365,6 +365,251 @@ def store_stage(c):
   svc.cleanup()
 
 
+def make_scripted_policy_factory(scripts, style):
+  """A real pythia.Policy in the documented style: build the decision, THEN write the metadata the
+  algorithm wants to keep into `decision.metadata` (`style` 'default': rely on SuggestDecision's own
+  default delta; 'explicit': pass a fresh MetadataDelta).  `scripts[study_name]` is the next script."""
+  from vizier import pythia
+  from vizier import pyvizier as vz
+
+  class ScriptedPolicy(pythia.Policy):
+    def __init__(self, study_name):
+      self._study = study_name
+
+    def suggest(self, request):
+      on_study, on_trials, new_mds = scripts[self._study]
+      sugg = []
+      for md in new_mds:
+        sg = vz.TrialSuggestion({'x': 0.5})
+        for ns, k, v in md:
+          sg.metadata.abs_ns(vz.Namespace.decode(ns))[k] = v
+        sugg.append(sg)
+      if style == 'explicit':
+        decision = pythia.SuggestDecision(sugg, metadata=vz.MetadataDelta())
+      else:
+        decision = pythia.SuggestDecision(sugg)
+      for ns, k, v in on_study:
+        decision.metadata.on_study.abs_ns(vz.Namespace.decode(ns))[k] = v
+      for tid, ns, k, v in on_trials:
+        decision.metadata.on_trials[tid].abs_ns(vz.Namespace.decode(ns))[k] = v
+      return decision
+
+    def early_stop(self, request):
+      return pythia.EarlyStopDecisions()
+
+    @property
+    def should_be_cached(self):
+      return False
+
+  def factory(problem_statement, algorithm, policy_supporter, study_name):
+    return ScriptedPolicy(study_name)
+  return factory, ScriptedPolicy
+
+
+def run_real_policies(backend, ops_by_study, style):
+  """Like run_real, but the algorithm is a real policy hosted by the real PythiaServicer, and SEVERAL
+  studies are served by the same process, their histories interleaved round-robin."""
+  from vcheck import svc
+  from vizier._src.service import vizier_service_pb2 as vsp, study_pb2, pythia_service
+  scripts = {}
+  factory, _ = make_scripted_policy_factory(scripts, style)
+  sv = svc.make_servicer(backend)
+  sv.default_pythia_service = pythia_service.PythiaServicer(sv, policy_factory=factory)
+  names = {}
+  for key in ops_by_study:
+    names[key] = svc.create_study(sv, display=key).name
+  outs = {key: [] for key in ops_by_study}
+  queues = {key: list(ops) for key, ops in ops_by_study.items()}
+  while any(queues.values()):
+    for key in list(queues):
+      if not queues[key]:
+        continue
+      o = queues[key].pop(0)
+      sname = names[key]
+      try:
+        if o['op'] == 'addTrial':
+          t = study_pb2.Trial(state=study_pb2.Trial.State.SUCCEEDED)
+          t.metadata.extend(svc.kv_list(o['md']))
+          got = sv.CreateTrial(vsp.CreateTrialRequest(parent=sname, trial=t))
+          outs[key].append('ok' if int(got.id) == o['id'] else 'id=%s' % got.id)
+        elif o['op'] == 'delTrial':
+          sv.DeleteTrial(vsp.DeleteTrialRequest(name='%s/trials/%d' % (sname, o['id'])))
+          outs[key].append('ok')
+        elif o['op'] == 'update':
+          req = vsp.UpdateMetadataRequest(name=sname)
+          for u in o['us']:
+            d = req.delta.add()
+            if u['t'] is not None:
+              d.trial_id = str(u['t'])
+            d.metadatum.CopyFrom(svc.kv_list([u['kv']])[0])
+          resp = sv.UpdateMetadata(req)
+          outs[key].append('notFound' if resp.error_details else 'ok')
+        elif o['op'] == 'algo':
+          scripts[sname] = ([u['kv'] for u in o['us'] if u['t'] is None],
+                            [[u['t']] + u['kv'] for u in o['us'] if u['t'] is not None], o['new'])
+          op = sv.SuggestTrials(vsp.SuggestTrialsRequest(parent=sname, suggestion_count=len(o['new']), client_id=o['client']))
+          outs[key].append('notFound' if op.HasField('error') else ('ok' if op.done else 'notdone'))
+      except Exception as e:  # pylint: disable=broad-except
+        outs[key].append('EXC:' + type(e).__name__)
+  stores = {}
+  for key, sname in names.items():
+    st = sv.GetStudy(vsp.GetStudyRequest(name=sname))
+    trials = sv.ListTrials(vsp.ListTrialsRequest(parent=sname)).trials
+    stores[key] = {'study': svc.md_tuples(st.study_spec), 'trials': [{'id': int(t.id), 'md': svc.md_tuples(t)} for t in trials]}
+  return outs, stores
+
+
+def policy_stage(c):
+  """Algorithm-issued metadata through the REAL policy plumbing (pythia.SuggestDecision /
+  PythiaServicer / ServicePolicySupporter): two studies served by one process, histories interleaved;
+  each study read back must be the last-writer-wins result of ITS OWN history."""
+  n = 24 if c.tier == 'quick' else 200
+  for i in range(n):
+    style = 'default' if i % 2 == 0 else 'explicit'
+    be = 'ram' if i % 3 else 'sqlmem'
+    ops_by_study = {'sa': gen_history(c.rng, c.rng.randrange(4, 12)), 'sb': gen_history(c.rng, c.rng.randrange(3, 10))}
+    # make sure algorithm rounds occur in both
+    for key, ops in ops_by_study.items():
+      if not any(o['op'] == 'algo' for o in ops):
+        ops_by_study[key] = gen_history(c.rng, 14)
+    models = c.lean('C10', [model_requests(ops_by_study[k], True) for k in ('sa', 'sb')])
+    outs, stores = run_real_policies(be, ops_by_study, style)
+    c.traces += 2
+    n_algo = sum(1 for ops in ops_by_study.values() for o in ops if o['op'] == 'algo')
+    c.count(2, ('policy', i) if n_algo >= 2 else None, kind='policy-history:' + style)
+    for key, m in zip(('sa', 'sb'), models):
+      if 'error' in m:
+        raise core.InfraError('driver: ' + str(m))
+      mv, mids = view_of(m['store'])
+      rv, rids = view_of(stores[key])
+      if outs[key] != m['outs'] or rv != mv or rids != mids:
+        diff = {str(k): (rv.get(k), mv.get(k)) for k in set(rv) | set(mv) if rv.get(k) != mv.get(k)}
+        c.prop_fail('policy-metadata-lww-mismatch:' + style,
+                    'algorithm-issued metadata through the real policy plumbing (%s delta, backend %s, two studies in one process): study %s reads back %s where last-writer-wins over its own history gives the second of each pair; outs real=%s spec=%s' % (
+                        style, be, key, json.dumps(diff)[:300], outs[key], m['outs']),
+                    {'backend': be, 'style': style, 'ops_by_study': ops_by_study, 'study': key, 'real_outs': outs[key], 'spec_outs': m['outs'],
+                     'real_store': stores[key], 'spec_store': m['store']})
+        break
+
+
+KEY_INRAM_ATOMIC = 'inram-update-metadata-missing-trial-not-atomic'
+
+
+def run_inram_policies(ops_by_study, style):
+  """The same scripted policy on InRamPolicySupporter (local_policy_supporters.py): two studies in one
+  process, interleaved.  ops: addTrial / algo only (the in-RAM supporter has no user UpdateMetadata)."""
+  from vizier import pyvizier as vz
+  from vizier._src.pythia import local_policy_supporters as lps
+  scripts = {}
+  _, policy_cls = make_scripted_policy_factory(scripts, style)
+  sups, outs = {}, {}
+  for key in ops_by_study:
+    prob = vz.ProblemStatement()
+    prob.search_space.root.add_float_param('x', 0.0, 1.0)
+    prob.metric_information.append(vz.MetricInformation('obj', goal=vz.ObjectiveMetricGoal.MAXIMIZE))
+    sups[key] = lps.InRamPolicySupporter(prob, study_guid=key)
+    outs[key] = []
+  queues = {key: list(ops) for key, ops in ops_by_study.items()}
+  while any(queues.values()):
+    for key in list(queues):
+      if not queues[key]:
+        continue
+      o = queues[key].pop(0)
+      sup = sups[key]
+      try:
+        if o['op'] == 'addTrial':
+          t = vz.Trial(parameters={'x': 0.25})
+          for ns, k, v in o['md']:
+            t.metadata.abs_ns(vz.Namespace.decode(ns))[k] = v
+          t.complete(vz.Measurement(metrics={'obj': 1.0}))
+          got = sup.AddTrials([t])
+          outs[key].append('ok')
+        elif o['op'] == 'algo':
+          scripts[key] = ([u['kv'] for u in o['us'] if u['t'] is None],
+                          [[u['t']] + u['kv'] for u in o['us'] if u['t'] is not None], o['new'])
+          sup.SuggestTrials(policy_cls(key), len(o['new']))
+          outs[key].append('ok')
+      except KeyError:
+        outs[key].append('notFound')
+      except Exception as e:  # pylint: disable=broad-except
+        outs[key].append('EXC:' + type(e).__name__)
+  stores = {}
+  for key, sup in sups.items():
+    def tuples(md):
+      return sorted([ns.encode(), k, v] for ns in md.namespaces() for k, v in md.abs_ns(ns).items())
+    stores[key] = {'study': tuples(sup.study_config.metadata), 'trials': [{'id': t.id, 'md': tuples(t.metadata)} for t in sup.trials]}
+  return outs, stores
+
+
+def gen_inram_history(rng, length):
+  ops = [o for o in gen_history(rng, length * 2) if o['op'] in ('addTrial', 'algo')][:length]
+  # ids must stay consecutive after dropping the other ops: renumber
+  live, nxt, out = [], 1, []
+  for o in ops:
+    if o['op'] == 'addTrial':
+      out.append({'op': 'addTrial', 'id': nxt, 'md': o['md']}); live.append(nxt); nxt += 1
+    else:
+      us = []
+      for u in o['us']:
+        t = u['t']
+        if t is not None:
+          t = rng.choice(live) if (live and rng.random() < 0.8) else 99
+        us.append({'t': t, 'kv': u['kv']})
+      op = {'op': 'algo', 'us': us, 'new': o['new'], 'client': o['client'], 'new_ids': []}
+      if all(u['t'] is None or u['t'] in live for u in us):
+        for _ in o['new']:
+          op['new_ids'].append(nxt); live.append(nxt); nxt += 1
+      out.append(op)
+  return out
+
+
+def inram_request(ops):
+  out = []
+  for o in ops:
+    if o['op'] == 'algo':
+      # AddSuggestions keeps the order of the decision's suggestions
+      out.append({'op': 'update', 'us': o['us'], 'algo_new': [{'id': i, 'md': md} for i, md in zip(o['new_ids'], o['new'])]})
+    else:
+      out.append(o)
+  return {'op': 'history', 'atomic': True, 'ops': out}
+
+
+def inram_stage(c):
+  n = 20 if c.tier == 'quick' else 150
+  # witness: a delta naming a missing trial must change nothing
+  w = {'sa': [{'op': 'algo', 'us': [{'t': None, 'kv': [':algo', 'k', 'v']}, {'t': 99, 'kv': [':algo', 'k', 'w']}], 'new': [[]], 'client': 'w', 'new_ids': []}]}
+  o, st = run_inram_policies(w, 'explicit')
+  atomic = (st['sa']['study'] == [])
+  c.flags['inRamUpdateMetadataAtomic'] = atomic
+  if not atomic:
+    c.prop_fail(KEY_INRAM_ATOMIC, 'InRamPolicySupporter: a metadata delta naming missing trial 99 raised %s but left study metadata %s (must report an error and change nothing)' % (o['sa'], st['sa']['study']),
+                {'ops': w, 'outs': o, 'store': st})
+  for i in range(n):
+    style = 'default' if i % 2 == 0 else 'explicit'
+    ops_by_study = {'sa': gen_inram_history(c.rng, c.rng.randrange(3, 9)), 'sb': gen_inram_history(c.rng, c.rng.randrange(3, 9))}
+    if not atomic:
+      # keep to deltas that name existing trials: the non-atomic failure is the finding above
+      for key in ops_by_study:
+        ops_by_study[key] = [o2 for o2 in ops_by_study[key] if o2['op'] != 'algo' or o2['new_ids'] or not o2['new']]
+    models = c.lean('C10', [inram_request(ops_by_study[k]) for k in ('sa', 'sb')])
+    outs, stores = run_inram_policies(ops_by_study, style)
+    c.traces += 2
+    c.count(2, ('inram', i), kind='inram-policy-history:' + style)
+    for key, m in zip(('sa', 'sb'), models):
+      if 'error' in m:
+        raise core.InfraError('driver: ' + str(m))
+      mv, mids = view_of(m['store'])
+      rv, rids = view_of(stores[key])
+      if outs[key] != m['outs'] or rv != mv or rids != mids:
+        diff = {str(k): (rv.get(k), mv.get(k)) for k in set(rv) | set(mv) if rv.get(k) != mv.get(k)}
+        c.prop_fail('inram-metadata-lww-mismatch:' + style,
+                    'algorithm-issued metadata on InRamPolicySupporter (%s delta, two studies in one process): study %s reads back %s where last-writer-wins over its own history gives the second of each pair; outs real=%s spec=%s' % (
+                        style, key, json.dumps(diff)[:300], outs[key], m['outs']),
+                    {'style': style, 'ops_by_study': ops_by_study, 'study': key, 'real_outs': outs[key], 'spec_outs': m['outs'],
+                     'real_store': stores[key], 'spec_store': m['store']})
+        break
+
+
 CONC_PAIRS = [('mdTrial1', 'complete1'), ('mdTrial1', 'measure1'), ('mdTrial1', 'stop1'), ('mdTrial1', 'suggestMd'),
               ('mdStudy', 'setInactive'), ('mdStudy', 'suggestMd'), ('mdBoth', 'complete1inf'), ('mdBoth', 'earlyStop1'),
               ('mdTrial1', 'mdBoth')]
@@ -460,6 +705,8 @@ def run(c):
   codec_stage(c)
   merge_stage(c)
   store_stage(c)
+  policy_stage(c)
+  inram_stage(c)
   concurrent_stage(c)
   return c.finish(
       level='proof',
